@@ -214,7 +214,8 @@ func (cl *Loader) loadDir(dir string) (map[string]interface{}, error) {
 		return nil, fmt.Errorf("%s: %v", dir, err)
 	}
 
-	cm := make(map[string]interface{})
+	var loaded []map[string]interface{}
+	var files []string
 	for _, importFile := range q {
 		if cl.imports[importFile] {
 			continue
@@ -225,13 +226,59 @@ func (cl *Loader) loadDir(dir string) (map[string]interface{}, error) {
 			return nil, fmt.Errorf("%s: %v", importFile, err)
 		}
 
+		loaded = append(loaded, cml)
+		files = append(files, importFile)
+	}
+
+	// A file that has imports of its own comes back with string keys below the top level (see
+	// load), a file without imports with yaml.v2's interface{} keys; merging the two kinds made
+	// mergo panic. When both kinds are present every tree is converted first.
+	var mixed bool
+	for _, cml := range loaded {
+		for _, v := range cml {
+			if hasStringKeyedMap(v) {
+				mixed = true
+			}
+		}
+	}
+
+	cm := make(map[string]interface{})
+	for i, cml := range loaded {
+		if mixed {
+			for k, v := range cml {
+				cml[k] = stringifyKeys(v)
+			}
+		}
+
 		err = mergo.Merge(&cm, cml, mergo.WithOverride, mergo.WithAppendSlice, mergo.WithTypeCheck)
 		if err != nil {
-			return nil, fmt.Errorf("%s: %v", importFile, err)
+			return nil, fmt.Errorf("%s: %v", files[i], err)
 		}
 	}
 
 	return cm, nil
+}
+
+// hasStringKeyedMap reports whether a decoded tree contains a map with string keys
+func hasStringKeyedMap(v interface{}) bool {
+	switch x := v.(type) {
+	case map[string]interface{}:
+		return true
+	case map[interface{}]interface{}:
+		for _, val := range x {
+			if hasStringKeyedMap(val) {
+				return true
+			}
+		}
+	case []interface{}:
+		for _, val := range x {
+			if hasStringKeyedMap(val) {
+				return true
+			}
+		}
+	}
+
+	return false
 }
 
 func (cl *Loader) readURL(u string) (map[string]interface{}, error) {
